@@ -291,7 +291,7 @@ def structure_correspondence(tier, seed):
     n = 30 if tier == "quick" else 400
     for i in range(n):
         ops, _ = progs.generate(rng.randrange(1 << 60), rng.randrange(5, 20), rng.choice(["graph", "mixed", "records"]), observe_each=False)
-        programs.append([o for o in ops if o[0] not in ("ExportJson", "ExportProvn", "LoadJson", "ToGraph", "GraphRoundTrip", "ObserveAll")])
+        programs.append(progs.without_exports(ops))
     elem_cls = {}
     for k in ("Entity", "Activity", "Agent"):
         elem_cls[json.dumps(DOT_PROV_STYLE[M.PROV[k]], sort_keys=True)] = "elem:" + k
